@@ -3,11 +3,7 @@ from registry_common import COMMON_ASSUME
 ENTRY = dict(
         title="Schedule edits touch exactly the addressed slots; commit sends the edited week",
         design_ref="DESIGN.md section 6 / C18",
-<<<<<<< HEAD
-        prop_modules=["C18", "C18Heap", "C18Unaligned", "TieSchedule", "C18Time"],
-=======
-        prop_modules=["C18", "C18Heap", "C18Unaligned", "TieSchedule", "TieStructSchedules"],
->>>>>>> r8-W1c
+        prop_modules=["C18", "C18Heap", "C18Unaligned", "TieSchedule", "C18Time", "TieStructSchedules"],
         technique="Lean 4 theorems over all days / bitmaps / edit sequences (model of set_state, the bitmap codec, the device's receive-edit-commit pipeline) + translator tables + correspondence with ScheduleDay.set_state and with a real EcoMAX device (handle_frame, Schedule objects, Schedule.commit)",
         level_text=(
             "Proof: `C18.set_exact` (a call succeeds iff state valid, times parse, end after start; the day afterwards differs exactly on slots lo..hi, "
